@@ -9,6 +9,7 @@ pub mod c06;
 pub mod c07;
 pub mod c08;
 pub mod c09;
+pub mod c10;
 pub mod c11;
 pub mod c12;
 pub mod c13;
@@ -37,6 +38,7 @@ pub fn dispatch(engine: &str, cfg: &Cfg) -> i32 {
         "c07" => c07::run(cfg),
         "c08" => c08::run(cfg),
         "c09" => c09::run(cfg),
+        "c10" => c10::run(cfg),
         "c11" => c11::run(cfg),
         "c12" => c12::run(cfg),
         "c13" => c13::run(cfg),
